@@ -129,6 +129,40 @@ theorem conforming_never_refused (tau t : Nat) (key : κ) (es : List (Ev κ))
     ∀ v ∈ verdictsOf key (fresh tau t) es, v = .ok :=
   (conforming_run es (tracks_fresh tau t key 0) hT hw).1
 
+/-- The allowance comes back with time, whatever happened before: after any history, an arrival of `k`
+tokens (`k·t ≤ tau`) that comes at least `k·t` - the time in which `k` tokens are replenished - after
+every accepted arrival of its key is accepted. -/
+theorem replenished_tokens_are_granted (tau t : Nat) (key : κ) (es : List (Ev κ)) (hT : Timed tau t 0 es)
+    (a k : Nat) (ha : lastTime 0 es ≤ a) (hb : a + 2 * tau < 18446744073709551616)
+    (hk : t * k < 18446744073709551616) (hkt : k * t ≤ tau)
+    (hidle : ∀ e ∈ accepted key (fresh tau t) [] es, e.1 + k * t ≤ a) :
+    ((run (fresh tau t) es).1.allows a key k).2 = .ok := by
+  have htr := tracks_run (key := key) es (tracks_fresh tau t key 0) hT
+  have hc := htr.conf
+  rw [run_t, run_tau] at hc
+  exact (gcra_exact tau t key es hT a k ha hb hk).2.mpr ⟨hkt, conf_after_replenish hc a k hidle⟩
+
+/-- In the terms of a configured quota (`n` tokens every `period` ns, one token per datagram): a sender
+whose accepted datagrams all lie a whole period back is within its quota - its datagram is accepted,
+however the earlier ones were spaced.  (This is the rule the correspondence harness's timed monitor
+`conforming-refused … a whole period after its previous datagram` applies to the real filter.) -/
+theorem whole_period_idle_is_within_quota (n period : Nat) (l : Limiter κ)
+    (hq : fromQuota n period = some l) (key : κ) (es : List (Ev κ)) (hT : Timed l.tau l.t 0 es)
+    (a : Nat) (ha : lastTime 0 es ≤ a) (hb : a + 2 * period < 18446744073709551616)
+    (hidle : ∀ e ∈ accepted key l [] es, e.1 + period ≤ a) :
+    ((run l es).1.allows a key 1).2 = .ok := by
+  obtain ⟨rfl, hn, hp, hpu⟩ := fromQuota_eq hq
+  have hle : period / n ≤ period := Nat.div_le_self _ _
+  have hU : U64 = 18446744073709551616 := rfl
+  refine replenished_tokens_are_granted period (period / n) key es hT a 1 ha hb (by omega) (by omega) ?_
+  intro e he
+  have := hidle e he
+  omega
+
+example : ((run (fresh (κ := Nat) 60 30) [.arrive 0 7 1, .arrive 1 7 1, .arrive 2 7 1]).1.allows 61 7 1).2 = .ok ∧
+    ((run (fresh (κ := Nat) 60 30) [.arrive 0 7 1, .arrive 1 7 1, .arrive 2 7 1]).2 = [.ok, .ok, .tooSoon 28]) := by
+  decide
+
 /-- Pruning is invisible: for monotone times the verdicts of a history equal the verdicts of the
 same history with all `prune` calls removed (all keys at once). -/
 theorem prune_transparent (tau t : Nat) (es : List (Ev κ)) (hT : Timed tau t 0 es) :
